@@ -32,6 +32,44 @@ CLAIMED = True
 COQ_MODULES = ["C19_Check", "C19_Proofs", "C19_ProofsExit"]
 PROPERTY_MODULE = "C19_Property"
 ALLOWED_AXIOMS = []
+
+
+# Translation validation (harness/README.md): the option post-processing of the click commands transform, simphenotype
+# and ld - the top-level statements of haptools/__main__.py from `if samples and samples_file: raise click.UsageError`
+# up to and including the call of the Python entry point - is regenerated from the current source on every run
+# (harness/pytrans.py -> HVG.Gen_Main) and proved equal to C19_Model.resolve_samples / resolve_ids / front_end for all
+# option tuples and file texts (coq/translated/TV_C19.v).
+def _front(cmd, entry, extra=()):
+    return ("haptools/__main__.py", cmd, {
+        "name": f"{cmd}_front", "top": True,
+        "start": {"if_and_names": ["samples", "samples_file"]}, "stop": {"through_call": entry},
+        "params": ["samples", "samples_file", "ids", "ids_file"] + list(extra), "result": None,
+        # what the encoders of TVM_C19.v assume about the four parameters, checked on the @click.option declarations:
+        # a repeated str option is a tuple of str, a click.File("r") option is None or one open text file
+        "click_options": {"samples": "multi_str", "samples_file": "file_r", "ids": "multi_str", "ids_file": "file_r"}})
+
+
+TRANSLATION = {
+    "spec": {
+        "module": "Gen_Main",
+        "text": True,
+        # `with samples_file as samps_file:` = `samps_file = samples_file` (an open file's __enter__ returns itself)
+        "with_names": True,
+        "dotted_raises": {"click.UsageError": "UsageError"},
+        # file.read() and str.splitlines() are not translated: Section variables extm_read / extm_splitlines
+        "ext_methods": ["read", "splitlines"],
+        # the call of the entry point appends (samples, ids) - its arguments at these positions - to the list "$out"
+        "outputs": {"transform_haps": {"stream": "$out", "args": [3, 4]},
+                    "simulate_pt": {"stream": "$out", "args": [8, 9]},
+                    "calc_ld": {"stream": "$out", "args": [4, 5]}},
+        "ignore_calls": ["log.error"],
+        "functions": [_front("transform", "transform_haps"),
+                      _front("simphenotype", "simulate_pt", ["heritability", "environment", "normalize"]),
+                      _front("ld", "calc_ld")],
+    },
+    "models": ["TVM_C19"],
+    "proofs": ["TV_C19"],
+}
 RULE = (
     "resolve: an invocation that restricts samples and/or IDs with >= 2 entries or through a file (incl. duplicates, "
     "unknown entries, LF / unterminated / CRLF / blank-last-line / blank-line-inside / vertical-tab / U+2028 / empty "
@@ -1481,7 +1519,27 @@ class Cli(Relation):
                 + (f" documented-outputs-missing={sorted(obs['cli']['missing'])}" if obs["cli"].get("missing") else ""))
 
 
-RELATIONS = [Resolve(), Cli()]
+class TVResolve(Resolve):
+    """The invocations of the resolve relation (same generator, same exhaustive scope, same recorder in place of the entry
+    point), with the front end of the command evaluated from the MiniPy syntax regenerated from the current source of
+    haptools/__main__.py: agree = the interpreted slice calls the entry point with the collections (members and Python
+    type: None / set / tuple) the real command function passed to it, or raises the error kind that gives the observed
+    exit status.  Validates the translator and the interpreter (truth values of tuples / file objects / None, `and`,
+    `with`, set(), tuple(), the raise) against the real code; holds is judged by the resolve relation."""
+    name = "tv_resolve"
+    coq_lib = "HVG"
+    coq_module = "TVM_C19"
+    coq_check = "check_tv_resolve"
+    coq_case_type = "tvrcase"
+    coq_model = "tv_model_resolve"
+    coq_imports = ["C19_Model", "C19_Check"]
+    budget = {"quick": 300, "thorough": 6000}
+
+    def signature(self, inp, obs):
+        return "tv_resolve: the translated front end and the click command disagree; " + super().signature(inp, obs)
+
+
+RELATIONS = [Resolve(), Cli(), TVResolve()]
 
 LEVEL_TEXT = (
     "Coq theorems over all ID/sample lists (strings as code-point lists, no size bound) about a Gallina model of the "
